@@ -85,3 +85,7 @@ package term
 //@   props C31
 //@ func readEvent
 //@   props C31
+//   Only the first read of an event may wait without limit; every later read inside the
+//   sequence has a finite (non-negative) timeout, so a truncated sequence cannot block the reader.
+//@   log ReadByteWithTimeout
+//@   before ReadByteWithTimeout [only-the-first-read-may-block] ncalls == 0 || arg0 >= 0
